@@ -16,7 +16,7 @@ from __future__ import annotations
 import hashlib
 import json
 
-from vcore import REPO, hexs, pyres
+from vcore import REPO, VERIF, hexs, pyres
 
 KEYS = REPO / "tests" / "_data" / "keys"
 KINDS = ["erase", "load", "execute", "call", "fuses", "ifr", "cmac", "copy", "hashlock", "keyblob", "cfgmem", "fill", "fwcheck", "reset"]
@@ -294,12 +294,12 @@ def check_history(ck, drv, s, spec, tamper=None):
             s.expect(False, (inp, hist), "export() of a well-formed container raises", res)
             return files
         data = res[1]
-        files.append(data)
         # ---- expected values straight from the inputs and the format description
         stream_len = 16 + sum(cmd_size(c) for c in cmds)
         bc = (stream_len + 255) // 256
         bs = 260 + hl
         total = 60 + hl + len(cert) + 2 * hl
+        files.append((data, hl, total))
         exp_hdr = (f"{spec['flags']} {bc} {bs} {spec['ts']} {spec['fw']} {total} {7 if spec['nxp'] else 6} {60 + hl} "
                    f"{(spec['desc'].encode('ascii')[:16] + bytes(16))[:16].hex()}")
         s.expect(len(data) == total + bc * bs, (inp, hist), "file length is not block0 + block_count * block_size", len(data), total + bc * bs)
@@ -379,6 +379,15 @@ def run(ck, only=None):
             s.note(spec)
             check_history(ck, drv, s, spec, tamper=t)
         return
+
+    # ---------------- 0. corpus: past failures first
+    corpus = VERIF / "corpus" / "C05"
+    if corpus.is_dir():
+        s0 = ck.stream("corpus", "minimised histories of past violations (corpus/C05/*.json), same comparisons and oracle as `histories`")
+        for f in sorted(corpus.glob("*.json")):
+            for spec in json.loads(f.read_text()).get("specs", []):
+                s0.note(spec, cls=f.stem)
+                check_history(ck, drv, s0, _unjson(spec))
 
     # ---------------- 1. commands: export vs model encoder, ROM parse of the real bytes returns the input
     sc = ck.stream("commands", "every command kind x data lengths 0..64 (all residues mod 16) and larger, field values at 0/1/2^31/2^32-1/random: "
@@ -472,15 +481,13 @@ def run(ck, only=None):
         files = check_history(ck, drv, sh, spec, tamper=st)
         # tamper with one of the files
         if drv is not None and files and rng.random() < (0.5 if cls != "big" else 0.2):
-            data = files[rng.randrange(len(files))]
-            hl = 32 if data[16:20] == (292).to_bytes(4, "little") else 48
-            total = int.from_bytes(data[32:36], "little")
+            data, hl, total = files[rng.randrange(len(files))]
             region = rng.choice(["header", "hash", "cert", "sig", "blknum", "blkhash", "payload"])
-            nblk = (len(data) - total) // (260 + hl)
+            nblk = max(1, (len(data) - total) // (260 + hl))
             b0 = total + rng.randrange(nblk) * (260 + hl)
             lo, hi = {"header": (0, 60), "hash": (60, 60 + hl), "cert": (60 + hl, total - 2 * hl), "sig": (total - 2 * hl, total),
                       "blknum": (b0, b0 + 4), "blkhash": (b0 + 4, b0 + 4 + hl), "payload": (b0 + 4 + hl, b0 + 260 + hl)}[region]
-            pos, bit = rng.randrange(lo, hi), rng.randrange(8)
+            pos, bit = min(rng.randrange(lo, hi), len(data) - 1), rng.randrange(8)
             mut = bytearray(data)
             mut[pos] ^= 1 << bit
             st.note((spec, pos, bit), cls=region)
@@ -490,9 +497,20 @@ def run(ck, only=None):
     logging.disable(logging.NOTSET)
 
 
+def _unjson(x):
+    """undo vcore._jsonable for the values a spec contains (big ints are stored as {"int": "..."})."""
+    if isinstance(x, dict):
+        if set(x) == {"int"}:
+            return int(x["int"])
+        return {k: _unjson(v) for k, v in x.items()}
+    if isinstance(x, list):
+        return [_unjson(v) for v in x]
+    return x
+
+
 def _find_spec(x):
     if isinstance(x, dict) and "ops" in x:
-        return x
+        return _unjson(x)
     if isinstance(x, list):
         for v in x:
             r = _find_spec(v)
